@@ -44,6 +44,22 @@ func (e *Engine) newCtx(c *Config, kind string, parent *RefV, valFrom *RefV) *Ct
 	name := e.dynName(c, "ctx:"+kind)
 	if o, ok := e.objs[name]; ok {
 		x := o.Root.Val.(*RefV).Alts[0].R.(*CtxObj)
+		// a context cannot be its own ancestor: alternatives naming x itself come from re-executing
+		// this site at a later step (heap cells hold ite(fired-earlier, x, old)) and are infeasible
+		dropSelf := func(pr *RefV) *RefV {
+			if pr == nil {
+				return nil
+			}
+			out := &RefV{}
+			for _, a := range pr.Alts {
+				if a.R == Ref(x) || And(a.G, c.g).IsFalse() {
+					continue
+				}
+				out.Alts = append(out.Alts, a)
+			}
+			return out
+		}
+		parent, valFrom = dropSelf(parent), dropSelf(valFrom)
 		// re-execution of the same dynamic site: refresh links under guard
 		x.Parent = mergeParent(c.g, parent, x.Parent)
 		x.ValFrom = mergeParent(c.g, valFrom, x.ValFrom)
